@@ -713,6 +713,32 @@ def fragment(fn_text: str, path: str, kind: str, ordinal) -> str:
     kind == "let": `ordinal` is the NAME of the bound variable; the statement `let NAME ... ;` is returned."""
     src = Source(path, fn_text)
     toks = src.toks
+    if kind == "stmt":
+        # the statement (at ANY nesting depth of the fn body) that starts with the marker text, verbatim; must be unique
+        marker = re.sub(r"\s+", "", str(ordinal))
+        hits = []
+        sig = src.sig
+        for idx, k in enumerate(sig):
+            if idx == 0:
+                continue
+            pt = toks[sig[idx - 1]]
+            if not (pt.kind == "punct" and pt.text in ("{", "}", ";")):
+                continue
+            # innermost enclosing brace block
+            enc = None
+            for o in sig[:idx]:
+                if toks[o].kind == "punct" and toks[o].text == "{" and src.match.get(o, -1) > k:
+                    enc = o
+            if enc is None:
+                continue
+            end = _stmt_end_in(src, k, src.match[enc])
+            stmt = re.sub(r"\s+", "", src.text[toks[k].start:toks[end].end])
+            if stmt.startswith(marker):
+                hits.append((k, end))
+        if len(hits) != 1:
+            raise ExtractError(f"{path}: anchor lost: statement starting with `{ordinal}` found {len(hits)} times")
+        k, end = hits[0]
+        return src.text[toks[k].start:toks[end].end]
     if kind == "span":
         # the top-level body statements from the one starting with marker A up to and including the one starting with marker B
         # (`fragment span A ~~ B`), verbatim
